@@ -242,6 +242,38 @@ PROPS["C15"] = _pub("C15", "Profile C15: half of the subscribers with the short 
     "Proof: Publish is one non-waiting step; buffers never exceed capacity; every internal step on a delivery records exactly one outcome; the timer is the subscriber's own and fires only at/after the deadline; callbacks ledger in bijection "
     "with filtered/timed-out outcomes; at quiescence whatever is pending is legitimately waiting. Partial for real time (timers, goroutine exit are observed with margins).")
 
+_SRV_TB = TB_COMMON + [
+    "net/http.ServeMux matching is modelled only for literal \"METHOD /path\" patterns (exact match, 405 when the path is registered for other methods, 404 otherwise); TLS, HTTP framing, grpc-go are trusted and only exercised",
+    "http.Server.Shutdown / ListenAndServe(TLS) and grpc.Server.Serve / GracefulStop / Stop contracts as documented (three-state machines in the lifecycle LTS)",
+    "loopback sockets; ports obtained by binding :0 and re-using the number",
+]
+PROPS["C17"] = dict(
+    components=[dict(name="server", shrink_lists=False, shrink=False)],
+    clause_prefixes=["C17.", "C18.start_returns_and_reachable", "C18.stop_complete"],
+    rule=("30 (quick) / 600 (thorough) generated configurations on real loopback listeners: 0-5 routes per listener (GET/POST/PUT/DELETE, literal paths of 1-3 segments), HTTPS with a self-signed certificate, "
+          "middleware chains of length 0-4 over recording middlewares and LogRequest/LogResponse, gRPC with the repo's example service; every registered route plus a grid of other method/path "
+          "combinations with bodies of 0 / 5-7 / 65536 bytes; compared: status, handler identity, what the handler saw (method, path, header, body length and hash), echo of the body, enter/leave order. "
+          "distinct_nontrivial = distinct configurations that served at least one route."),
+    level_text=("Proof for the composition/routing/transparency logic: bundle = nested composition for every list length, recording traces enter in order / leave in reverse, LogRequest and LogResponse are the identity on "
+                "what the handler sees and the client gets, registered routes dispatch to exactly their handler, everything else is 404/405, each listener installs its own router. Partial: ServeMux beyond literal "
+                "patterns, TLS, HTTP framing and grpc-go are exercised by the loopback runs, not modelled."),
+    level_note="Trusted: Lean kernel; the small functional model of middleware/routing; real sockets only observed.",
+    trusted_base=_SRV_TB, assumptions=["request paths are clean literal paths; HEAD is not exercised", "handler ids map to status 210+id (clear of 204/205)"],
+)
+PROPS["C18"] = dict(
+    components=[dict(name="lifecycle", shrink_lists=False, shrink=False, independent_lines=True)],
+    clause_prefixes=["C18."],
+    rule=("every non-empty subset of {HTTP, HTTPS, gRPC} x in-flight requests {0,1,4} (handlers blocked on a gate until Stop is under way) x Stop context {ample, already expired} x timing {after reachability, "
+          "immediately after Start}: 56 scenarios (x10 repetitions in the thorough tier), each in its own process on real loopback listeners; observed: Start returned promptly, listeners reachable, in-flight "
+          "responses completed, Stop did not return early (ample), Stop returned, error flag, WaitGroup released, ports bindable again. For every scenario the driver also explores all interleavings of the "
+          "lifecycle LTS and checks that every maximal run ends stopped/closed/released and that the observed error flag is one the model can produce. distinct_nontrivial = distinct scenarios."),
+    level_text=("Proof of the hand-shake protocol under the stated stdlib contracts: WaitGroup balance (never negative, = started and not returned), no deadlock of Start/Stop for every provider subset and interleaving "
+                "(incl. Stop right after Start, expired context), Stop complete, in-flight requests not cut off with an ample context. Partial: reachability, port release and completion of real requests are "
+                "socket/runtime truths only observed by the scenarios — this is the property to which the technique contributes least."),
+    level_note="Trusted: Lean kernel; the lifecycle LTS with stdlib servers as three-state machines; real sockets only observed.",
+    trusted_base=_SRV_TB, assumptions=["time bounds: Start within 2 s, reachability within 5 s, Stop within 30 s, ports free within 1 s"],
+)
+
 HOOK_COMMITS = []
 
 _ALL = ["C%02d" % i for i in range(1, 21)]
